@@ -52,6 +52,20 @@ def check_container(ctx, m, g, kind, ty, key):
     return sf
 
 
+def forwarded_rename(attrs_tokens):
+    """serde(rename = "x") among forwarded attribute token strings -> x"""
+    for s_ in attrs_tokens:
+        mm = re.match(r'^serde\(rename="([^"]*)"\)$', A.compact(s_))
+        if mm:
+            return mm.group(1)
+    return None
+
+
+def param_key(p):
+    r = forwarded_rename([a["path"] + "(" + a["tokens"] + ")" for a in p["attrs"]])
+    return r if r is not None else p["name"]
+
+
 def check_fields(ctx, rule, m, key, h, fields, ser_fields, de_fields, node, pub_required=False):
     """fields of a variant/struct == parameters of h (names, Self-stripped types, serde keys)"""
     want = {p["name"]: p["ty_s"] for p in h.params}
@@ -60,12 +74,13 @@ def check_fields(ctx, rule, m, key, h, fields, ser_fields, de_fields, node, pub_
         ctx.violation(rule, key + [h.fn, "fields"], C.where(m, node), want, have, STATEMENT, "MsgField::emit / process_fields")
     if ser_fields is not None:
         sk = sorted((k, src) for k, src in ser_fields)
-        wk = sorted((p["name"], p["name"]) for p in h.params)
+        wk = sorted((param_key(p), p["name"]) for p in h.params)
         if sk != wk:
             ctx.violation(rule, key + [h.fn, "ser-keys"], C.where(m, node), wk, sk, STATEMENT)
     if de_fields is not None:
-        if sorted(de_fields) != sorted(want):
-            ctx.violation(rule, key + [h.fn, "de-keys"], C.where(m, node), sorted(want), sorted(de_fields), STATEMENT)
+        wkeys = sorted(param_key(p) for p in h.params)
+        if sorted(de_fields) != wkeys:
+            ctx.violation(rule, key + [h.fn, "de-keys"], C.where(m, node), wkeys, sorted(de_fields), STATEMENT)
 
 
 def check_ctor(ctx, m, g, key, impl, ctor_name, h, target_variant, node, rule="C01.f-constructor"):
@@ -157,7 +172,12 @@ def check_enum(ctx, m, g, kind):
             continue
         wire = sv["wire"]
         wire_names.append(wire)
-        if NAME_SHAPE.match(h.fn):
+        renamed = forwarded_rename([t for t, _ in h.variant_attrs])
+        if renamed is not None:
+            ctx.tag("name.forwarded-rename")
+            if wire != renamed:
+                ctx.violation("C01.c-wire-name", key + [h.fn, "wire"], C.where(m, ty), renamed, wire, STATEMENT, "forwarded serde(rename) on the variant")
+        elif NAME_SHAPE.match(h.fn):
             ctx.tag("name.in-shape")
             if wire != h.fn:
                 ctx.violation("C01.c-wire-name", key + [h.fn, "wire"], C.where(m, ty), h.fn, wire, STATEMENT,
